@@ -73,6 +73,8 @@ def check(run: Run) -> None:
         v = ("subscript", ("attr", selfp, "_lookup_dict"), ("attr", nodep, "id"))
         for a in unphi_terms(t):
             ok = False
+            if a[0] == "tvisit" and a[1].endswith("_rewrite_captured_vars"):
+                a = a[2]  # a helper, its own free variables captured on the way (C05.R10)
             if a[0] == "new" and a[1] == "Constant" and dict(a[2]).get("value") == v:
                 ok = True
             elif a[0] == "app" and a[1][0] == "global" and a[1][1].endswith("as_literal") and a[2] == (v,):
